@@ -89,12 +89,24 @@ class Container:
             op.transition(OperatorState.RUNNING)
 
             segments = op.get_segments()
-            for seg_idx, seg in enumerate(segments):
-                # Calculate ticks for I/O phase and CPU phase
+
+            # Calculate ticks for I/O phase and CPU phase of every segment
+            seg_ticks = []
+            for seg in segments:
                 io_secs = seg.get_io_seconds()
                 cpu_secs = seg.get_cpu_time(self.assignment.cpu)
                 io_ticks = int(io_secs / self.tick_length_secs)
                 cpu_ticks = int(cpu_secs / self.tick_length_secs)
+                seg_ticks.append((io_ticks, cpu_ticks))
+
+            # An operator occupies at least one tick: if every phase rounds
+            # down to zero ticks, the CPU phase of the last segment takes one.
+            op_ticks_left = sum(io_ticks + cpu_ticks for io_ticks, cpu_ticks in seg_ticks)
+            if op_ticks_left == 0:
+                seg_ticks[-1] = (seg_ticks[-1][0], 1)
+                op_ticks_left = 1
+
+            for seg, (io_ticks, cpu_ticks) in zip(segments, seg_ticks):
                 total_seg_ticks = io_ticks+cpu_ticks
 
                 for i in range(total_seg_ticks):
@@ -115,12 +127,12 @@ class Container:
                     while self._current_memory > self.assignment.ram:
                         yield
 
-                    # are we at the end of the op (last tick of last
-                    # seg)?  if so, we're either completed, or we can
-                    # suspend, depending on whether this is the last
-                    # op.
+                    # are we at the end of the op (its last tick)?  if
+                    # so, we're either completed, or we can suspend,
+                    # depending on whether this is the last op.
                     self._can_suspend = False
-                    if seg_idx == len(segments)-1 and i == total_seg_ticks - 1:
+                    op_ticks_left -= 1
+                    if op_ticks_left == 0:
                         # Operator completed successfully
                         op.transition(OperatorState.COMPLETED)
                         self._current_op_idx += 1
